@@ -175,6 +175,8 @@ def sym(node: N.Node, env: Optional[Dict[str, str]] = None) -> str:
     if isinstance(node, N.Filter):
         args = [s(a) for a in node.args] + [f"{k.key}={s(k.value)}" for k in node.kwargs]
         inner = s(node.node) if node.node is not None else ""
+        if node.name in ("first", "last") and not args and node.node is not None:
+            return f"{inner}[{0 if node.name == 'first' else -1}]"       # `xs|first` is `xs[0]`
         return f"{inner}|{node.name}" + (f"({', '.join(args)})" if args else "")
     if isinstance(node, N.Test):
         args = [s(a) for a in node.args]
@@ -500,16 +502,17 @@ class JModel:
 
 class Env:
     """name -> symbolic value (s) and abstract type (t)."""
-    __slots__ = ("s", "t", "f", "n")
+    __slots__ = ("s", "t", "f", "n", "b")
 
-    def __init__(self, s=None, t=None, f=None, n=None):
+    def __init__(self, s=None, t=None, f=None, n=None, b=None):
         self.s = dict(s or {})
         self.t = dict(t or {})
         self.f = dict(f or {})
         self.n = dict(n or {})       # {% set x = [literal list] %}: the expression node, for loops over it
+        self.b = dict(b or {})       # {% set x %}...{% endset %}: (body, template, env at the definition), replayed where x is output
 
     def copy(self):
-        return Env(self.s, self.t, self.f, self.n)
+        return Env(self.s, self.t, self.f, self.n, self.b)
 
 
 class _Walker:
@@ -582,7 +585,7 @@ class _Walker:
                 e2.s["loop"] = "loop"
                 if n.test is not None:
                     t_ = sym(n.test, e2.s)
-                    self.walk_nodes(n.body, tname, e2, conds + [(t_, True, n.test, dict(e2.s))], loops, macros, st)
+                    self.walk_nodes(n.body, tname, e2, conds + [(t_, True, n.test, dict(e2.s), dict(e2.n))], loops, macros, st)
                 else:
                     self.walk_nodes(n.body, tname, e2, conds, loops, macros, st)
         elif isinstance(n, N.For):
@@ -619,19 +622,23 @@ class _Walker:
             self.walk_nodes(body, origin, env, conds, loops, macros, st)
         elif isinstance(n, N.Assign):
             if isinstance(n.target, N.Name):
-                if isinstance(n.node, (N.List, N.Tuple)):
-                    env.n[n.target.name] = n.node
-                else:
-                    env.n.pop(n.target.name, None)
+                # the expression node behind the name: a literal list (loops over it are unrolled) or any other expression
+                # (guards written in terms of the name are read through it)
+                env.n[n.target.name] = n.node
+                env.b.pop(n.target.name, None)
                 v, t = sym(n.node, env.s), self.etype(n.node, env)
                 env.f[n.target.name] = self.jm.flags(n.node, env.f)
                 env.s[n.target.name] = v
                 env.t[n.target.name] = t
         elif isinstance(n, N.AssignBlock):
-            if isinstance(n.target, N.Name):
+            if isinstance(n.target, N.Name) and n.filter is None:
+                # a captured fragment: nothing is written here; it is written, in the HTML context of that place, wherever the
+                # variable is output (emit)
                 env.s[n.target.name] = f"<block:{n.target.name}>"
                 env.t[n.target.name] = "S"
-            self.walk_nodes(n.body, tname, env, conds, loops, macros, st.copy())
+                env.b[n.target.name] = (n.body, tname, env.copy())
+            else:
+                self.walk_nodes(n.body, tname, env, conds, loops, macros, st.copy())
         elif isinstance(n, (N.Import, N.FromImport, N.Extends)):
             pass
         elif isinstance(n, N.With):
@@ -667,11 +674,11 @@ class _Walker:
         e1 = env.copy()
         if isinstance(test, N.Test) and test.name == "string" and isinstance(test.node, N.Name):
             e1.t[test.node.name] = "S"   # `x is string`: a plain name, not an entity
-        self.walk_nodes(body, tname, e1, conds + [(t, True, test, dict(env.s))], loops, macros, st)
+        self.walk_nodes(body, tname, e1, conds + [(t, True, test, dict(env.s), dict(env.n))], loops, macros, st)
         e2 = env.copy()
         if isinstance(test, N.Not) and isinstance(test.node, N.Test) and test.node.name == "string" and isinstance(test.node.node, N.Name):
             e2.t[test.node.node.name] = "S"   # `x is not string` ... else: a plain name
-        neg = conds + [(t, False, test, dict(env.s))]
+        neg = conds + [(t, False, test, dict(env.s), dict(env.n))]
         if elifs:
             first = elifs[0]
             self._walk_if(first.test, first.body, elifs[1:], else_, tname, e2, neg, loops, macros, st0.copy())
@@ -682,6 +689,14 @@ class _Walker:
     # -------------------------------------------------------------- expression emission
     def emit(self, x, tname, env: Env, conds, loops, macros, st, items, idx):
         core, fs = filter_chain(x)
+        if isinstance(core, N.Name) and core.name in env.b and all(f.name == "safe" for f in fs) and self.depth < 12:
+            body, t_def, e_def = env.b[core.name]
+            self.depth += 1
+            try:
+                self.walk_nodes(body, t_def, e_def.copy(), conds, loops, macros, st)
+            finally:
+                self.depth -= 1
+            return
         # macro call as an output: inline it
         if isinstance(core, N.Call) and self.inline:
             m = self._resolve(tname, core.node)
